@@ -482,6 +482,26 @@ impl Session {
                 }
             }
         }
+        // (6) only exec_mut / clear / restore / rollback may change the content or audit log of a database, and
+        //     only of the database they address (delete / remove / rename make it disappear under that name)
+        if ok && self.oracle.len() == reports_before {
+            let may_change = match &req {
+                Req::Db(o, d, Op::ExecMut(_) | Op::Clear(_) | Op::Restore | Op::Rollback)
+                | Req::ADb(o, d, Op::ExecMut(_) | Op::Clear(_) | Op::Restore | Op::Rollback) => Some((*o, *d)),
+                _ => None,
+            };
+            let mut hit = None;
+            for b in &pre.dbs {
+                if may_change == Some((b.owner, b.name)) { continue; }
+                if let Some(a) = post.db(b.owner, b.name) {
+                    if a.nodes != b.nodes || a.audit != b.audit { hit = Some((b.s(), a.s(), (b.owner, b.name))); break; }
+                }
+            }
+            if let Some((before, after, key)) = hit {
+                let cls = if matches!(req, Req::Db(_, _, Op::Convert(_)) | Req::ADb(_, _, Op::Convert(_))) || self.converted.contains(&key) { "db_damaged_by_convert" } else { "content_changed_by_unrelated_request" };
+                self.report(cls, &format!("{what}: db before {before} after {after}"));
+            }
+        }
         // (5) a request that can only succeed (authorized, every query of a kind that cannot fail) must not
         //     be answered with a server error
         if self.oracle.len() == reports_before {
